@@ -1,6 +1,14 @@
 package providers
 
-import "github.com/buzzfeed/sso/internal/pkg/singleflight"
+import (
+	"time"
+
+	"github.com/buzzfeed/sso/internal/pkg/singleflight"
+)
 
 // VerifGroup exposes the coalescing group of the proxy-side middleware to the /verif harness.
 func (p *SingleFlightProvider) VerifGroup() *singleflight.Group { return p.single }
+
+// VerifSetHTTPTimeout changes the overall timeout of the package's HTTP client (5 s in http_client.go) so that the harness can
+// script an authenticator that accepts a request and never answers without waiting five seconds per step.
+func VerifSetHTTPTimeout(d time.Duration) { httpClient.Timeout = d }
